@@ -60,7 +60,7 @@ def matrices(draw, min_bins=6, max_bins=24, max_chroms=4):
 
 @st.composite
 def options(draw, n, nch):
-    mode = draw(st.sampled_from(["genome", "genome", "cis", "trans"] if nch >= 2 else ["genome", "cis"]))
+    mode = draw(st.sampled_from(["genome", "cis", "genome", "trans", "cis"] if nch >= 2 else ["genome", "genome", "cis"]))
     x0kind = draw(st.sampled_from([None, None, None, "positive", "holes"]))
     x0 = None
     if x0kind:
